@@ -41,6 +41,9 @@ def _table(term, atoms):
 
 
 def run(db, chk) -> None:
+    from ..specs.discipline import check_stateless
+    check_stateless(db, chk, "C06.R-stateless", ['hta.analyzers.breakdown_analysis'])      # the result is a function of the arguments: no state kept between calls, caller's Trace untouched
+    chk.floor("C06.R-stateless", 4)
     m = db.mod(BA)
     cls = (m, "BreakdownAnalysis")
     ut = db.mod("hta.utils.utils")
